@@ -62,7 +62,7 @@ Ltac kj :=
   intros x G;
   unfold t_accept_sink, t_accept_proc, t_accept_buffer, t_accept, t_shutdown, t_supplied, t_buf_pop, t_buf_store, t_map_slot,
          t_finish, t_generated, t_clear_out, t_clear_part, t_batch_single, t_batch_full, t_batch_more, t_reserved,
-         t_waiting_res, t_waiting_ds, t_set_cycle, t_add_offset, t_reset_offset, t_block, t_budget, dev_set_wait, dev_add_value;
+         t_waiting_res, t_waiting_ds, t_set_cycle, t_add_offset, t_reset_offset, t_block, t_budget, t_down_del, t_down_add, t_up, dev_set_wait, dev_add_value;
   cbv zeta;
   repeat match goal with
          | |- context[if ?b then _ else _] => destruct b
@@ -457,6 +457,20 @@ Qed.
 Lemma RJ_maint_finish fuel mid wo w : RJ w (maint_finish fuel nw mid wo w).
 Proof. unfold maint_finish. eapply RJ_trans; [apply RJ_restore|apply RJ_maint_call]. Qed.
 
+Lemma RJ_rewire fuel w d ups : RJ w (rewire fuel nw w d ups).
+Proof.
+  unfold rewire. set (x := getd w d). destruct (existsb (bad_up d w) ups); [Jt|].
+  match goal with |- RJ w (fold_left _ ups (updd (fold_left _ _ ?w0') d _)) => set (w0 := w0') end.
+  assert (R0 : RJ w w0).
+  { unfold w0. destruct (is_holder (d_kind x)); [|Jt]. destruct (d_wait_since x); [|Jt]. apply (RJ_dev w d (fun _ => True)); [kj|exact I]. }
+  apply (RJ_trans w w0); [exact R0|].
+  set (w1 := fold_left (fun w' u => updd w' u (t_down_del d)) (d_up x) w0).
+  apply (RJ_trans w0 w1); [unfold w1; apply RJ_fold; intros w' u; apply (RJ_dev w' u (fun _ => True)); [kj|exact I]|].
+  apply (RJ_trans w1 (updd w1 d (t_up ups))); [apply (RJ_dev w1 d (fun _ => True)); [kj|exact I]|].
+  apply RJ_fold. intros w' u. destruct (existsb (Z.eqb d) (d_down (getd w' u))); [Jt|].
+  apply (RJ_trans w' (updd w' u (t_down_add d))); [apply (RJ_dev w' u (fun _ => True)); [kj|exact I]|apply RJ_signal].
+Qed.
+
 Lemma RJ_run_uop fuel w o : RJ w (run_uop fuel nw w o).
 Proof.
   unfold run_uop. destruct (negb (okf w)); [Jt|]. destruct o.
@@ -468,6 +482,7 @@ Proof.
     match goal with |- context[t_budget ?z] => jdev w d (t_budget z) (fun _ : dev => True); [exact I|] end.
     destruct (_ <? 1); [apply RJ_sched_pass|Jt].
   - apply (RJ_dev w d (fun _ => True)); [kj|exact I].
+  - apply RJ_rewire.
   - apply RJ_rm_call.
   - apply RJ_create_wo.
 Qed.
